@@ -587,7 +587,12 @@ class Engine(
                     extra_columns = list(extra_columns)
                     self.handle_empty_columns(extra_columns)
                 columns_available = payload.columns_available
-                columns_projected = {tag: columns_available[tag] for tag in select.columns}
+                # Use a deterministic column order: chains are compiled to
+                # UNIONs, which match the columns of their operands by
+                # position, and equal sets need not iterate in the same order.
+                columns_projected = {
+                    tag: columns_available[tag] for tag in sorted(select.columns, key=self.get_identifier)
+                }
                 executable = self.select_items(columns_projected.items(), payload.from_clause, *extra_columns)
                 if len(payload.where) == 1:
                     executable = executable.where(payload.where[0])
